@@ -60,6 +60,9 @@ def cases(rng, tier):
         for h in rng.sample(hdrs, 14) + [None, "Basic " + b64(b"basic:sb"), "Basic " + b64(b"basic:no")]:
             for f in rng.sample(forms, 5) + [{}]:
                 out.append({"op": "endpoint", "endpoint": ep, "header": h, "form": f})
+                if ep in ("device_authorization", "token:client_credentials", "token:password"):
+                    # the request also asks for a scope the server does not support: an unauthenticated request is still answered invalid_client
+                    out.append({"op": "endpoint", "endpoint": ep, "header": h, "form": f, "bad_scope": True})
     # histories on ONE server: registry changes between requests (secret rotation, method change, deletion)
     for how in ("basic", "post", "none"):
         out.append({"op": "history", "how": how})
@@ -177,8 +180,8 @@ def assert_history_line(c):
                                                     {"id": "pub", "jwt": False}, {"id": "both", "jwt": False}], "reqs": reqs}
 
 
-def make_server(framework=None):
-    store, srv, rp = ms.build(oidc=False, framework=framework)
+def make_server(framework=None, scopes_supported=None):
+    store, srv, rp = ms.build(oidc=False, framework=framework, scopes_supported=scopes_supported)
     for cid, sec, method in CLIENTS:
         store.clients[cid] = Client(cid, sec, ["https://c/cb"], "a b", ms.ALL_GRANT_TYPES, ms.ALL_RESPONSE_TYPES, method,
                                     extra={"public_key": R.pem_public(R.keys()["rsa1"])} if cid == "pkjwt" else None)
@@ -201,7 +204,7 @@ def mk_request(c, extra_form=None, uri="https://as.example/ep"):
 
 def impl(c):
     ms.install_clock()
-    store, srv = make_server()
+    store, srv = make_server(scopes_supported=["a", "b"] if c.get("bad_scope") else None)
     if c["op"] == "auth":
         req = mk_request(c)
         try:
@@ -214,7 +217,7 @@ def impl(c):
     if c["op"] == "endpoint":
         out = impl_endpoint(c, store, srv)
         for fw in ("flask", "django"):
-            st2, srv2 = make_server(fw)
+            st2, srv2 = make_server(fw, ["a", "b"] if c.get("bad_scope") else None)
             o = impl_endpoint(c, st2, srv2)
             if o != out and "transport_refused" not in o:
                 out["differs:" + fw] = o
@@ -237,6 +240,8 @@ def impl_endpoint(c, store, srv):
     before = json.dumps(store.snapshot(), sort_keys=True)
     headers = {} if c["header"] is None else {"Authorization": c["header"]}
     form = dict(EP_FORM[ep]); form.update(c["form"])
+    if c.get("bad_scope"):
+        form["scope"] = "zzz"
     req = Req("POST", "https://as.example/ep", form, headers)
     try:
         if ep.startswith("token"):
